@@ -197,6 +197,37 @@ def geom_fp(x):
     return (name, dt, props, g, holes)
 
 
+def warm(col):
+    """read the collection-level cached observations (bounds, geospan, duplicate flag …) so that an operation that
+    wrongly carries a receiver's caches over to its result has something stale to carry (seeded change C09-m3)"""
+    for name in ('bounds', 'geospan', 'has_duplicate_timestamps', 'time_start_diffs'):
+        try:
+            getattr(col, name)
+        except Exception:  # noqa
+            pass
+
+
+def stale(col):
+    """' !STALE:<names>' if a cached observation of `col` differs from its recomputation from the members"""
+    bad = []
+    try:
+        shapes = list(col.geoshapes)
+        if shapes:
+            bs = [x.bounds for x in shapes]
+            want = (min(b[0] for b in bs), min(b[1] for b in bs), max(b[2] for b in bs), max(b[3] for b in bs))
+            if tuple(col.bounds) != want:
+                bad.append('bounds')
+            elif col.geospan != want[2] - want[0] + want[3] - want[1]:
+                bad.append('geospan')
+        if hasattr(col, 'has_duplicate_timestamps') and all(x.dt is not None for x in shapes):
+            dts = [x.dt for x in shapes]
+            if bool(col.has_duplicate_timestamps) != (len(set(dts)) != len(dts)):
+                bad.append('has_duplicate_timestamps')
+    except Exception:  # noqa  (curved members with Z etc.: not this helper's business)
+        return ''
+    return (' !STALE:' + ','.join(bad)) if bad else ''
+
+
 def snapshot(col):
     return [(id(x), geom_fp(x)) for x in col.geoshapes]
 
